@@ -217,3 +217,47 @@ def resultFor [DecidableEq κ] (f : β → α → β) (init : β) (es : List (El
   Fold.mk (k, (Fold.values (proj k es)).foldl f init) (Fold.maxOpt (Fold.dataTs (proj k es)))
 
 end Noir.KeyedFold
+
+namespace Noir.KeyedRichMap
+open Noir.KeyedFold
+
+variable {κ α β : Type}
+
+/-- `RichMap::next` (src/operator/rich_map.rs:85-103) for a keyed stream whose stateful closure is
+    a running fold `acc ← f acc v; emit acc` (the closure used by the harness; `rich_map` clones
+    it once per key, rich_map.rs:92-98, so the per-key state is the accumulator). State:
+    `maps_fn: HashMap<K, F>` (rich_map.rs:17) as an association list key ↦ accumulator.
+    The map is NOT cleared at `FlushAndRestart`: the `clear()` is commented out (rich_map.rs:87-89). -/
+def step [DecidableEq κ] (f : β → α → β) (init : β) (st : List (κ × β)) (e : Elem (κ × α)) :
+    List (κ × β) × List (Elem (κ × β)) :=
+  match e with
+  | .item kv =>
+    let st' := processItem f init st kv.1 kv.2
+    (st', [.item (kv.1, (lookup st' kv.1).getD init)])
+  | .ts kv t =>
+    let st' := processItem f init st kv.1 kv.2
+    (st', [.ts (kv.1, (lookup st' kv.1).getD init) t])
+  | .wm t => (st, [.wm t])
+  | .flushBatch => (st, [.flushBatch])
+  | .far => (st, [.far])            -- rich_map.rs:87-89: `// self.maps_fn.clear();`
+  | .term => (st, [.term])
+
+def runFrom [DecidableEq κ] (f : β → α → β) (init : β) :
+    List (κ × β) → List (Elem (κ × α)) → List (κ × β) × List (Elem (κ × β))
+  | st, [] => (st, [])
+  | st, e :: es =>
+    let r := step f init st e
+    let r' := runFrom f init r.1 es
+    (r'.1, r.2 ++ r'.2)
+
+def run [DecidableEq κ] (f : β → α → β) (init : β) (es : List (Elem (κ × α))) : List (Elem (κ × β)) :=
+  (runFrom f init [] es).2
+
+def runIdx [DecidableEq κ] (f : β → α → β) (init : β) :
+    List (κ × β) → Nat → List (Elem (κ × α)) → List (Nat × Elem (κ × β))
+  | _, _, [] => []
+  | st, i, e :: es =>
+    let r := step f init st e
+    r.2.map (fun o => (i, o)) ++ runIdx f init r.1 (i + 1) es
+
+end Noir.KeyedRichMap
